@@ -2043,6 +2043,9 @@ def check_C06(ck):
         else:
             uvals = [(0, 0), (1, 0), (0, 1)] + [(a, 1) for a in ls[:4]] + [(a, 2) for a in ls[:2]] + [(0, a) for a in ls[:2]]
             enc = lambda u: u[0].to_bytes(64, "big") + u[1].to_bytes(64, "big")
+        # field elements whose SSWU image has a special Jacobian denominator (1, -1, a root of unity of order 3 or 6): where a
+        # fast path of the isogeny evaluation or of the conversion to Jacobian form keyed on a POWER of Z being one goes wrong
+        uvals = uvals + sswu_inputs_with_denominator(g, tag, (K.one, K.neg(K.one)) + tuple(small_roots_of_unity(K)))
         fx, fus = [], []
         for u in uvals:
             fx.append(("h2c/fixed-uniform-bytes/nu", "h2cfix %s nu %s" % (tag, enc(u).hex()))); fus.append([u])
